@@ -33,6 +33,8 @@ pub open spec fn world_of<'a, T: ParserListener + Send + 'a>(p: Parser<'a, T>) -
 /// the documented SPECIAL set (C03): ESC, the 8-bit CSI and OSC introducers and the C0 controls BEL BS HT LF VT FF CR SO SI.
 /// (`Parser::is_special_start` and the `SPECIAL` table are proved against this, see parser.spec.)
 pub open spec fn is_special(c: char) -> bool { c as u32 == 0x1b || c as u32 == 0x9b || c as u32 == 0x9d || is_basic(c) }
+/// the world of a newly created parser
+pub open spec fn world0(utf8: bool) -> World { World { consumed: Seq::<char>::empty(), log: Seq::<Ev>::empty(), utf8: utf8 } }
 /// position of the suspended coroutine in the grammar
 pub open spec fn wstate(w: World) -> St { run(w.consumed, w.utf8).0 }
 
@@ -175,6 +177,13 @@ pub proof fn lemma_state_indep_utf8(inp: Seq<char>, a: bool, b: bool) //#lemma: 
 
 // ---- TRUSTED call-out shims (bodies are the original expressions) -------------------------------------
 impl<'a, T> Parser<'a, T> where T: ParserListener + Send + 'a {
+    /// Parser::new is NOT under contract (its body is the coroutine constructor): ASSUMED to return a parser whose coroutine has
+    /// consumed nothing, whose listener has received nothing, in UTF-8 mode, taking plain text
+    #[verifier::external_body]
+    pub fn new(listener: Arc<Mutex<T>>) -> (r: Self)
+        ensures pview(r) == (world0(true), true), use_utf8_of(r),
+    { unimplemented!() }
+
     /// Parser::set_use_utf8 (`self.parser_state.lock().unwrap().use_utf8 = B`): ASSUMED effect on the shared flag
     #[verifier::external_body]
     pub fn set_use_utf8(&mut self, use_utf8: bool)
@@ -226,7 +235,13 @@ pub mod encoding_rs {
 pub const UTF_8: encoding_rs::Encoding = encoding_rs::Encoding { _p: () };
 /// the state of a freshly created decoder (no pending bytes)
 pub uninterp spec fn dec_fresh() -> DecState;
+/// the state of a freshly created decoder that still looks for a byte order mark (it swallows a leading EF BB BF)
+pub uninterp spec fn dec_fresh_bom() -> DecState;
 impl encoding_rs::Encoding {
+    #[verifier::external_body]
+    pub fn new_decoder_with_bom_removal(&self) -> (r: encoding_rs::Decoder)
+        ensures dec_of(r) == dec_fresh_bom(), !dec_finished(r),
+    { unimplemented!() }
     #[verifier::external_body]
     pub fn new_decoder_without_bom_handling(&self) -> (r: encoding_rs::Decoder)
         ensures dec_of(r) == dec_fresh(), !dec_finished(r),
